@@ -465,7 +465,7 @@ impl<'c, KD: Kind, const N: usize> MapEng<'c, KD, N> {
         self.after(P03, P03);
     }
 
-    pub fn op_fmt(&mut self, w: usize, a: u8) {
+    pub fn op_fmt(&mut self, w: usize, a: u8, b: u8) {
         if self.liar {
             return;
         }
@@ -481,6 +481,8 @@ impl<'c, KD: Kind, const N: usize> MapEng<'c, KD, N> {
                 _ => fmt_display::<KD>(cx, &slot.c.m),
             };
             cx.bump(S::fmt_calls);
+            // the same container under width / fill / sign / precision flags: allocation oracle only
+            mmv_base::fmtutil::fmt_spec_noalloc::<KD>(cx, Some(&slot.c.m), Some(&slot.c.m), b);
             match out {
                 Ok(out) => {
                     let want = match sub {
